@@ -1,4 +1,4 @@
-import CCV.Lemmas.OptimizerMetaValue
+import CCV.Lemmas.OptimizerEval
 /-
   C06 — graph optimisation preserves meaning and interface (and part (b) of C04 on the same model).
 
@@ -16,8 +16,12 @@ import CCV.Lemmas.OptimizerMetaValue
   closedness, annotations, C04(b) — and the pipeline `optimize` (`optimize_sound`).  The meta pass
   (`metaOps_sound`) is proved from the algebraic laws of the structural operations (`MetaLaws`:
   getter-of-constructor, Zip, ArrayToVector, A2B/B2A inverses and the typing of the nodes the pass
-  creates) by the loop invariant "a proxy object denotes the value of its node" (`Den`, nested
-  proxies included; Lemmas/OptimizerMetaValue.lean).
+  creates; each law relative to a success predicate `ok`) by the loop invariant "a proxy object
+  denotes the value of its node" (`Den`, nested proxies included; Lemmas/OptimizerMetaValue.lean).
+
+  Evaluator instance (last section): the laws are PROVED for the evaluator model `evalOp` of C09
+  lifted to typed values with failure (`OptEval.evLaws`), so `metaOps_sound_eval` and
+  `optimize_sound_eval` carry no law hypothesis.
 -/
 namespace CCV.C06
 open CCV.Optimizer
@@ -296,43 +300,50 @@ example : (metaOps gMeta).map (fun r => (r.1.out, (r.1.nodes.getD 1 default).ann
     structural operations (`MetaLaws`), when the recorded type summaries describe the values
     (`TyOK`), arities are as the type checker guarantees (`MetaWF`) and VectorGet / Zip are applied
     to vectors (`VecOK`; follows from `VecWF` on recorded types, `VecWF.ok`): every node is mapped
-    to a node with the same value, the recorded types of the result describe its values (so the
-    statement composes), annotations are on the image, and randomising / PRF / input nodes are
+    to a node with the same value, the recorded types of the result describe its values and every
+    node of the result — the created Get / GetSlice / VectorGet / CreateTuple nodes included —
+    evaluates successfully (so the statement composes), annotations are on the image, and randomising / PRF / input nodes are
     preserved (C04(b), `SpecialInj`: a getter may be resolved to a randomising node, so injectivity
     is among such nodes, and the randomising node is the first node mapped to its image).
     Hypotheses changed w.r.t. the earlier unproved version: `one`/`stOf` became the type summary
     `tyv` (the pass re-reads the type of nodes it created itself, which the two observations could
     not express); `MetaWF` and `VecOK` are new (without them the model statement is false: e.g. a
-    CreateNamedTuple with a repeated field name, or an A2B node with two dependencies). -/
+    CreateNamedTuple with a repeated field name, or an A2B node with two dependencies).
+    The laws are relative to a success predicate `ok` (each equation is demanded only when its
+    left-hand side is `ok`) and the source graph must evaluate successfully at every node (`ValOK`);
+    `ok := fun _ => True` gives the unconditional version.  This is what makes the statement
+    applicable to ciphercore's strict, partial evaluator (`optimize_sound_eval` below). -/
 def MetaStatement : Prop :=
-  ∀ (V : Type) (sem : Op → List V → V) (inp : Nat → V) (dv : V) (tyv : V → Ty)
+  ∀ (V : Type) (ok : V → Prop) (sem : Op → List V → V) (inp : Nat → V) (dv : V) (tyv : V → Ty)
     (g g' : Graph) (m : Mapping) (rO rN : Nat → List V → V),
-    MetaLaws sem tyv → Closed g.nodes → MetaWF g.nodes → metaOps g = some (g', m) →
-    TyOK sem inp dv rO tyv g.nodes → VecOK sem inp dv rO tyv g.nodes → Compat g.nodes m rO rN →
+    MetaLaws ok sem tyv → Closed g.nodes → MetaWF g.nodes → metaOps g = some (g', m) →
+    TyOK sem inp dv rO tyv g.nodes → ValOK ok sem inp dv rO g.nodes →
+    VecOK sem inp dv rO tyv g.nodes → Compat g.nodes m rO rN →
     (∀ i k, Maps m i k →
       (eval sem inp dv rN g'.nodes).getD k dv = (eval sem inp dv rO g.nodes).getD i dv) ∧
-    TyOK sem inp dv rN tyv g'.nodes ∧
+    TyOK sem inp dv rN tyv g'.nodes ∧ ValOK ok sem inp dv rN g'.nodes ∧
     SpecialInj g.nodes g'.nodes m ∧
     (∀ i k n, Maps m i k → g.nodes[i]? = some n →
       ∃ n', g'.nodes[k]? = some n' ∧ ∀ a ∈ n.ann, a ∈ n'.ann)
 
 /-- (1)(4)(5) for the meta pass -/
 theorem metaOps_sound : MetaStatement := by
-  intro V sem inp dv tyv g g' m rO rN L hc hwf h hty hvo hcomp
-  obtain ⟨h1, h2⟩ := metaOps_value L g g' m hc hwf h hty hvo hcomp
+  intro V ok sem inp dv tyv g g' m rO rN L hc hwf h hty hok hvo hcomp
+  obtain ⟨h1, h2, h2'⟩ := metaOps_value L g g' m hc hwf h hty hok hvo hcomp
   obtain ⟨h3, h4⟩ := metaOps_special g g' m hc h
-  exact ⟨h1, h2, h3, h4⟩
+  exact ⟨h1, h2, h2', h3, h4⟩
 
 /-- the output value is preserved by the meta pass -/
-theorem metaOps_output (sem : Op → List V → V) (inp : Nat → V) (dv : V) (tyv : V → Ty)
-    (g g' : Graph) (m : Mapping) (rO rN : Nat → List V → V) (L : MetaLaws sem tyv)
+theorem metaOps_output {ok : V → Prop} (sem : Op → List V → V) (inp : Nat → V) (dv : V) (tyv : V → Ty)
+    (g g' : Graph) (m : Mapping) (rO rN : Nat → List V → V) (L : MetaLaws ok sem tyv)
     (hc : Closed g.nodes) (hwf : MetaWF g.nodes) (h : metaOps g = some (g', m))
-    (hty : TyOK sem inp dv rO tyv g.nodes) (hvo : VecOK sem inp dv rO tyv g.nodes)
+    (hty : TyOK sem inp dv rO tyv g.nodes) (hok : ValOK ok sem inp dv rO g.nodes)
+    (hvo : VecOK sem inp dv rO tyv g.nodes)
     (hcomp : Compat g.nodes m rO rN) (ho : g.out < g.nodes.length) :
     (eval sem inp dv rN g'.nodes).getD g'.out dv = (eval sem inp dv rO g.nodes).getD g.out dv := by
   obtain ⟨k, hk, _⟩ := (metaOps_closed g g' m hc h).2.1 g.out ho
   rw [metaOps_out g g' m h, look_of_maps hk]
-  exact (metaOps_value L g g' m hc hwf h hty hvo hcomp).1 g.out k hk
+  exact (metaOps_value L g g' m hc hwf h hty hok hvo hcomp).1 g.out k hk
 
 /-- the source oracle transported along the mapping is compatible (a randomising node is the first
     node mapped to its image) -/
@@ -342,9 +353,9 @@ theorem metaOps_transport (g g' : Graph) (m : Mapping) (hc : Closed g.nodes)
   compat_transport_inj (metaOps_special g g' m hc h).1 rO
 
 /- non-vacuity of the hypotheses of `metaOps_sound`: the one-point semantics satisfies `MetaLaws`
-   (the laws are jointly satisfiable), and on `gMetaU` (tuple / named-tuple getters resolved through
-   nested proxies, B2A∘A2B) all hypotheses hold; the intended model of the laws is the evaluator of
-   ciphercore, which the harness replays on every generated graph.
+   unconditionally (`ok := True`; the laws are jointly satisfiable), and on `gMetaU` (tuple /
+   named-tuple getters resolved through nested proxies, B2A∘A2B) all hypotheses hold; the intended
+   model of the laws is the evaluator of ciphercore: see the last section (`evLaws`, `gEv`).
    0 in · 1 random · 2 tuple(0,1) · 3 named{7,8}(2,0) · 4 ntg 7 (3) → 2 · 5 tg 1 (4) → 1 ·
    6 a2b(0) · 7 b2a(6) -/
 def gMetaU : Graph :=
@@ -353,10 +364,10 @@ def gMetaU : Graph :=
     ⟨.namedTupleGet 7, [3], [], none, .other⟩, ⟨.tupleGet 1, [4], [4], none, .other⟩,
     ⟨.a2b, [0], [], none, .other⟩, ⟨.b2a 3, [6], [], none, .other⟩], 5⟩
 
-theorem unitLaws : MetaLaws (fun (_ : Op) (_ : List Unit) => ()) (fun _ => Ty.other) :=
+theorem unitLaws : MetaLaws (fun _ => True) (fun (_ : Op) (_ : List Unit) => ()) (fun _ => Ty.other) :=
   ⟨(by intros; rfl), (by intros; rfl), (by intros; rfl), (by intros; rfl), (by intros; rfl),
    (by intros; rfl), (by intros; rfl), (by intro a c st h; cases h), (by intros; rfl),
-   (by intro v i e h; cases h), (by intros; rfl)⟩
+   (by intro v i e h; cases h), (by intros; rfl), (by intros; trivial)⟩
 
 example : (metaOps gMetaU).map (·.2) =
     some [some 0, some 1, some 2, some 3, some 2, some 1, some 6, some 7] := by decide +kernel
@@ -413,13 +424,16 @@ theorem optimize_interface (oracle : Nat → Nat × Option Nat) (g g' : Graph) (
 /-- FULL STATEMENT for the pipeline (value part), now proved (`optimize_sound`): `optimize`
     preserves the value of every node the joined mapping still maps, and of the output, for the
     oracle of the result obtained by transporting the source oracle along the four stage mappings.
-    Besides well-formedness of the graph, the only hypotheses are the laws of the structural
-    operations and `hor`: the evaluator oracle of the constants pass yields the right constants. -/
+    Moreover every node of the optimised graph is `ok` (evaluates successfully).
+    Besides well-formedness of the graph (incl. `TyOK`, `ValOK`: recorded types are right and every
+    source node is `ok`), the only hypotheses are the laws of the structural operations relative
+    to `ok` and `hor`: the evaluator oracle of the constants pass yields the right constants. -/
 def OptimizeStatement : Prop :=
-  ∀ (V : Type) (sem : Op → List V → V) (inp : Nat → V) (dv : V) (tyv : V → Ty)
+  ∀ (V : Type) (ok : V → Prop) (sem : Op → List V → V) (inp : Nat → V) (dv : V) (tyv : V → Ty)
     (oracle : Nat → Nat × Option Nat) (g g' : Graph) (m : Mapping) (rO : Nat → List V → V),
-    MetaLaws sem tyv → Closed g.nodes → ConstWF g.nodes → InputWF g.nodes → MetaWF g.nodes →
-    TyOK sem inp dv rO tyv g.nodes → VecOK sem inp dv rO tyv g.nodes →
+    MetaLaws ok sem tyv → Closed g.nodes → ConstWF g.nodes → InputWF g.nodes → MetaWF g.nodes →
+    TyOK sem inp dv rO tyv g.nodes → ValOK ok sem inp dv rO g.nodes →
+    VecOK sem inp dv rO tyv g.nodes →
     optimize oracle g = some (g', m) →
     (∀ i k n n', Maps (constants oracle g).2 i k → g.nodes[i]? = some n →
       (constants oracle g).1.nodes[k]? = some n' → n'.op.isConstant → n'.op ≠ n.op →
@@ -428,7 +442,8 @@ def OptimizeStatement : Prop :=
       (∀ i k, Maps m i k →
         (eval sem inp dv rN g'.nodes).getD k dv = (eval sem inp dv rO g.nodes).getD i dv) ∧
       (g.out < g.nodes.length →
-        (eval sem inp dv rN g'.nodes).getD g'.out dv = (eval sem inp dv rO g.nodes).getD g.out dv)
+        (eval sem inp dv rN g'.nodes).getD g'.out dv = (eval sem inp dv rO g.nodes).getD g.out dv) ∧
+      ValOK ok sem inp dv rN g'.nodes
 
 /-- (1) for the pipeline relative to its meta stage (kept; `optimize_sound` discharges `hrest`):
     if the meta stage maps each node of the constants-stage output to an equal-valued node,
@@ -486,7 +501,7 @@ theorem optimize_value_partial (oracle : Nat → Nat × Option Nat) (g g' : Grap
 
 /-- (1) for the whole pipeline -/
 theorem optimize_sound : OptimizeStatement := by
-  intro V sem inp dv tyv oracle g g' m r0 L hc hcw hiw hwf hty hvo h hor
+  intro V ok sem inp dv tyv oracle g g' m r0 L hc hcw hiw hwf hty hok hvo h hor
   obtain ⟨_, g2, m2, hm, hg', hmm⟩ := optimize_stages oracle g g' m h
   have h1 := constants_transport oracle g hc hcw r0
   have hv1 := (constants_value oracle g hc hcw sem inp dv r0 _ h1 hor).2
@@ -494,24 +509,192 @@ theorem optimize_sound : OptimizeStatement := by
   have c1 := (constants_interface oracle g hc hcw).2.1
   have w1 : InputWF (constants oracle g).1.nodes := (constants_inv oracle g hc hcw).tr.inputWF hiw
   have h2 := metaOps_transport _ g2 m2 c1 hm (transport (constants oracle g).2 r0)
-  have hv2 := (metaOps_value L _ g2 m2 c1 hwf1 hm hty1 (hvo1 hvo) h2).1
+  have hok1 := constants_valok oracle g hc hcw ok sem inp dv r0 _ hok hv1
+  obtain ⟨hv2, _, hok2⟩ := metaOps_value L _ g2 m2 c1 hwf1 hm hty1 hok1 (hvo1 hvo) h2
   obtain ⟨_, _, c2, _, w2⟩ := metaOps_interface_partial _ g2 m2 c1 hm
   have h3 := duplicates_transport g2 c2 (transport m2 (transport (constants oracle g).2 r0))
   have c3 := (duplicates_interface g2 c2).2.1
   have w3 : InputWF (duplicates g2).1.nodes := (duplicates_inv g2 c2).tr.inputWF (w2 w1)
   have h4 := dangling_transport (duplicates g2).1 c3 w3
     (transport (duplicates g2).2 (transport m2 (transport (constants oracle g).2 r0)))
-  refine ⟨transport (dangling (duplicates g2).1).2 (transport (duplicates g2).2
-      (transport m2 (transport (constants oracle g).2 r0))),
-    optimize_value_partial oracle g g' m hc hcw hiw h sem inp dv r0
+  have hmain := optimize_value_partial oracle g g' m hc hcw hiw h sem inp dv r0
       (transport (constants oracle g).2 r0) (transport m2 (transport (constants oracle g).2 r0))
-      (transport (duplicates g2).2 (transport m2 (transport (constants oracle g).2 r0))) _ hor h1 ?_⟩
-  intro g2' m2' hm'
-  rw [hm] at hm'
-  simp only [Option.some.injEq, Prod.mk.injEq] at hm'
-  obtain ⟨rfl, rfl⟩ := hm'
-  exact ⟨hv2, h3, h4⟩
+      (transport (duplicates g2).2 (transport m2 (transport (constants oracle g).2 r0)))
+      (transport (dangling (duplicates g2).1).2 (transport (duplicates g2).2
+        (transport m2 (transport (constants oracle g).2 r0)))) hor h1 (by
+    intro g2' m2' hm'
+    rw [hm] at hm'
+    simp only [Option.some.injEq, Prod.mk.injEq] at hm'
+    obtain ⟨rfl, rfl⟩ := hm'
+    exact ⟨hv2, h3, h4⟩)
+  refine ⟨_, hmain.1, hmain.2, ?_⟩
+  -- every node of the result is the image of a node of the meta-stage result, which evaluates
+  subst hg'
+  intro k hk
+  obtain ⟨c, hck⟩ := (dangling_inv (duplicates g2).1 c3 w3).tr.surj k hk
+  obtain ⟨b, hbc⟩ := (duplicates_inv g2 c2).tr.surj c
+    ((dangling_inv (duplicates g2).1 c3 w3).tr.ref.bound c k hck).1
+  rw [dangling_value (duplicates g2).1 c3 w3 sem inp dv _ _ h4 c k hck,
+    (duplicates_value g2 c2 sem inp dv _ _ h3).2 b c hbc]
+  exact hok2 b ((duplicates_inv g2 c2).tr.ref.bound b c hbc).1
 
 -- non-vacuity: on `gEx` the pipeline folds, merges and drops nodes (see the stage examples above)
+
+/- ================================ the evaluator instance ================================== -/
+
+/- `metaOps_sound` / `optimize_sound` for the evaluator model, with NO law hypothesis.
+
+   Value domain `VE = Option (Ty × EV)`: a typed value of the evaluator model `CCV.EvalOps` (the
+   model compared with `SimpleEvaluator` on every run of C09) or `none` = evaluation failed.
+   `semE T op` = `evalOp` of the translated operation, strict in failures, guarded by
+   `Value::check_type` of the arguments, result type from `TI.infer` (Lemmas/OptimizerEvalDefs.lean;
+   `T` = what the harness interns: field names, vector element types, scalar types, operations the
+   passes do not inspect, non-UINT64 constants).  On arguments that have their types it IS `evalOp`
+   (`OptEval.liftE_faithful`, `liftE_total`).  `tyvE T` = the summary of the value's type.
+   `evLaws` (Lemmas/OptimizerEval.lean): `semE T` satisfies `MetaLaws` relative to
+   `okV` = "evaluated successfully, to a value of a valid type".
+
+   Remaining hypotheses, all about the SOURCE graph only:
+     Closed / ConstWF / InputWF / MetaWF / VecWF   syntactic well-formedness (type checker),
+     TyOK   the recorded summary of each node is the summary of its value's type,
+     ValOK  every node of the source graph evaluates successfully (to a value of a valid type),
+     hor    the evaluator oracle of the constants pass is right. -/
+section Evaluator
+open CCV.OptEval
+
+/-- meta pass on the evaluator model: every mapped node has the same typed value; every node of the
+    result (created Get / GetSlice / VectorGet / CreateTuple nodes included) evaluates successfully
+    and its recorded summary is right -/
+theorem metaOps_sound_eval (T : Tab) (hinj : Function.Injective T.nm) (hst : ∀ s, T.st (T.stc s) = s)
+    (inp : Nat → VE) (g g' : Graph) (m : Mapping) (rO rN : Nat → List VE → VE)
+    (hc : Closed g.nodes) (hwf : MetaWF g.nodes) (hvw : VecWF g.nodes)
+    (h : metaOps g = some (g', m))
+    (hty : TyOK (semE T) inp none rO (tyvE T) g.nodes)
+    (hok : ValOK okV (semE T) inp none rO g.nodes)
+    (hcomp : Compat g.nodes m rO rN) :
+    (∀ i k, Maps m i k →
+      (eval (semE T) inp none rN g'.nodes).getD k none = (eval (semE T) inp none rO g.nodes).getD i none) ∧
+    TyOK (semE T) inp none rN (tyvE T) g'.nodes ∧ ValOK okV (semE T) inp none rN g'.nodes := by
+  have r := metaOps_sound VE okV (semE T) inp none (tyvE T) g g' m rO rN (evLaws T hinj hst) hc hwf h
+    hty hok (VecWF.ok hc hvw hty) hcomp
+  exact ⟨r.1, r.2.1, r.2.2.1⟩
+
+/-- the pipeline on the evaluator model: `optimize` preserves the typed value of every node the
+    chained mapping still maps, and of the output, and the optimised graph evaluates successfully
+    at EVERY node (a strict evaluator such as `SimpleEvaluator` evaluates all of them) -/
+theorem optimize_sound_eval (T : Tab) (hinj : Function.Injective T.nm) (hst : ∀ s, T.st (T.stc s) = s)
+    (inp : Nat → VE) (oracle : Nat → Nat × Option Nat) (g g' : Graph) (m : Mapping)
+    (rO : Nat → List VE → VE)
+    (hc : Closed g.nodes) (hcw : ConstWF g.nodes) (hiw : InputWF g.nodes) (hwf : MetaWF g.nodes)
+    (hvw : VecWF g.nodes)
+    (hty : TyOK (semE T) inp none rO (tyvE T) g.nodes)
+    (hok : ValOK okV (semE T) inp none rO g.nodes)
+    (h : optimize oracle g = some (g', m))
+    (hor : ∀ i k n n', Maps (constants oracle g).2 i k → g.nodes[i]? = some n →
+      (constants oracle g).1.nodes[k]? = some n' → n'.op.isConstant → n'.op ≠ n.op →
+      semE T n'.op [] = (eval (semE T) inp none rO g.nodes).getD i none) :
+    ∃ rN : Nat → List VE → VE,
+      (∀ i k, Maps m i k →
+        (eval (semE T) inp none rN g'.nodes).getD k none =
+          (eval (semE T) inp none rO g.nodes).getD i none) ∧
+      (g.out < g.nodes.length →
+        (eval (semE T) inp none rN g'.nodes).getD g'.out none =
+          (eval (semE T) inp none rO g.nodes).getD g.out none) ∧
+      ValOK okV (semE T) inp none rN g'.nodes :=
+  optimize_sound VE okV (semE T) inp none (tyvE T) oracle g g' m rO (evLaws T hinj hst) hc hcw hiw hwf
+    hty hok (VecWF.ok hc hvw hty) h hor
+
+/- non-vacuity: a graph on which the meta pass does all four things, with concrete inputs.
+   0 x : u8[2,2] · 1 y : u64[3] · 2 z : bit[2,8] ·
+   3 tuple(0,1) · 4 tuple_get 1 (3) → 1 ·
+   5 vector<u64[3]>(1,1) · 6 const 1u64 · 7 vector_get(5,6) → 1 ·
+   8 a2v(0) · 9 vector_get(8,6) → new GetSlice(0,[1,…]) ·
+   10 a2v(1) · 11 vector_get(10,6) → new Get(1,[1]) ·
+   12 b2a_u8(2) · 13 a2b(12) → 2 ·
+   14 tuple(4,7,9,11,13) = output -/
+def stcEx : ST → Nat
+  | .bit => 0 | .u8 => 1 | .i8 => 2 | .u16 => 3 | .i16 => 4 | .u32 => 5 | .i32 => 6
+  | .u64 => 7 | .i64 => 8 | .u128 => 9 | .i128 => 10
+def stEx : Nat → ST
+  | 0 => .bit | 1 => .u8 | 2 => .i8 | 3 => .u16 | 4 => .i16 | 5 => .u32 | 6 => .i32
+  | 7 => .u64 | 8 => .i64 | 9 => .u128 | _ => .i128
+def exTab : Tab :=
+  { nm := fun n => "".pushn 'a' n, ty := fun _ => .array [3] .u64, st := stEx, stc := stcEx,
+    cst := fun _ => none, op := fun _ => .nop }
+
+theorem exTab_inj : Function.Injective exTab.nm := by
+  intro a b hab
+  have := congrArg String.length hab
+  simpa [exTab, String.length_pushn] using this
+
+theorem exTab_st : ∀ s, exTab.st (exTab.stc s) = s := by intro s; cases s <;> rfl
+
+def gEv : Graph :=
+  ⟨[⟨.input 0, [], [], none, .arr 2 1⟩, ⟨.input 1, [], [], none, .arr 1 7⟩,
+    ⟨.input 2, [], [], none, .arr 2 0⟩,
+    ⟨.createTuple, [0, 1], [], none, .other⟩, ⟨.tupleGet 1, [3], [], none, .arr 1 7⟩,
+    ⟨.createVector 0, [1, 1], [], none, .vec (.arr 1 7)⟩,
+    ⟨.constant 9 (some 1), [], [], none, .arr 0 7⟩, ⟨.vectorGet, [5, 6], [], none, .arr 1 7⟩,
+    ⟨.arrayToVector, [0], [], none, .vec (.arr 1 1)⟩, ⟨.vectorGet, [8, 6], [], none, .arr 1 1⟩,
+    ⟨.arrayToVector, [1], [], none, .vec (.arr 0 7)⟩, ⟨.vectorGet, [10, 6], [], none, .arr 0 7⟩,
+    ⟨.b2a 1, [2], [], none, .arr 1 1⟩, ⟨.a2b, [12], [], none, .arr 2 0⟩,
+    ⟨.createTuple, [4, 7, 9, 11, 13], [], none, .other⟩], 14⟩
+
+def inpEv : Nat → VE
+  | 0 => some (.array [2, 2] .u8, .arr [1, 2, 3, 4])
+  | 1 => some (.array [3] .u64, .arr [10, 20, 30])
+  | _ => some (.array [2, 8] .bit, .arr [1, 0, 1, 0, 0, 0, 0, 0, 1, 1, 1, 1, 1, 1, 1, 1])
+
+def rndEv : Nat → List VE → VE := fun _ _ => none
+def orcEv : Nat → Nat × Option Nat := fun _ => (0, none)
+
+-- the meta pass resolves all five getters (4 ↦ 1, 7 ↦ 1, 9 ↦ new node 10, 11 ↦ new node 13, 13 ↦ 2)
+example : (metaOps gEv).map (·.2) =
+    some [some 0, some 1, some 2, some 3, some 1, some 5, some 6, some 1, some 8, some 10, some 11,
+      some 13, some 14, some 2, some 16] := by decide +kernel
+example : (metaOps gEv).map (fun r => ((r.1.nodes.getD 10 default).op, (r.1.nodes.getD 10 default).deps,
+    (r.1.nodes.getD 13 default).op, (r.1.nodes.getD 13 default).deps, (r.1.nodes.getD 16 default).deps)) =
+    some (.getSlice 1, [0], .get 1, [1], [1, 1, 10, 13, 2]) := by decide +kernel
+
+-- all hypotheses of `optimize_sound_eval` hold for it …
+theorem gEv_hyps :
+    Closed gEv.nodes ∧ ConstWF gEv.nodes ∧ InputWF gEv.nodes ∧ MetaWF gEv.nodes ∧ VecWF gEv.nodes ∧
+    TyOK (semE exTab) inpEv none rndEv (tyvE exTab) gEv.nodes ∧
+    ValOK okV (semE exTab) inpEv none rndEv gEv.nodes :=
+  ⟨closed_of_closedFrom _ (by decide), by unfold ConstWF; decide, by unfold InputWF; decide,
+   by unfold MetaWF; decide, vecWF_of_check (by decide),
+   tyOK_of_map (by decide +kernel), valOK_of_all (fun _ => okVb_spec) (by decide +kernel)⟩
+
+theorem gEv_noFold : noFold orcEv gEv = true := by decide +kernel
+theorem gEv_opt : (optimize orcEv gEv).isSome = true := by decide +kernel
+
+-- … the pipeline succeeds on it, so the conclusion holds for it: 15 nodes become 6
+-- (x, y, z, GetSlice(x,[1,…]), Get(y,[1]), tuple(y, y, x[1], y[1], z))
+example : (optimize orcEv gEv).map (fun r => (r.1.nodes.length, r.1.out, r.2)) =
+    some (6, 5, [some 0, some 1, some 2, none, some 1, none, none, some 1, none, some 3, none,
+      some 4, none, some 2, some 5]) := by decide +kernel
+
+example : ∃ g' m, optimize orcEv gEv = some (g', m) ∧ ∃ rN : Nat → List VE → VE,
+    (∀ i k, Maps m i k →
+      (eval (semE exTab) inpEv none rN g'.nodes).getD k none =
+        (eval (semE exTab) inpEv none rndEv gEv.nodes).getD i none) ∧
+    (eval (semE exTab) inpEv none rN g'.nodes).getD g'.out none =
+      (eval (semE exTab) inpEv none rndEv gEv.nodes).getD gEv.out none ∧
+    ValOK okV (semE exTab) inpEv none rN g'.nodes := by
+  obtain ⟨⟨g', m⟩, hgm⟩ := Option.isSome_iff_exists.mp gEv_opt
+  obtain ⟨hc, hcw, hiw, hwf, hvw, hty, hok⟩ := gEv_hyps
+  have hout : gEv.out < gEv.nodes.length := by decide
+  have hor := hor_of_noFold (oracle := orcEv) (g := gEv) gEv_noFold (semE exTab)
+    (fun i => (eval (semE exTab) inpEv none rndEv gEv.nodes).getD i none)
+  obtain ⟨rN, h1, h2, h3⟩ := optimize_sound_eval exTab exTab_inj exTab_st inpEv orcEv gEv g' m rndEv
+    hc hcw hiw hwf hvw hty hok hgm hor
+  exact ⟨g', m, hgm, rN, h1, h2 hout, h3⟩
+
+-- the source output is the tuple (y, y, x[1], y[1], z), a value that passes `check_type`:
+-- typed values of the evaluator model, nothing degenerate
+example : ((eval (semE exTab) inpEv none rndEv gEv.nodes).getD gEv.out none).map (fun v => hasTypeB v.1 v.2) =
+    some true := by decide +kernel
+
+end Evaluator
 
 end CCV.C06
